@@ -119,8 +119,9 @@ SETTINGS = {
     "set_path": ["--set-path", "id=77"],
     "provider_global": None,
     "provider_filtered": None,
+    "provider_requests": None,  # a `requests` auth object registered as the provider
 }
-EXCLUSIVE = [("declared_header_other_case", "set_header"), ("basic", "provider_global"), ("basic", "provider_filtered"), ("provider_global", "provider_filtered"), ("api_key", "provider_global")]
+EXCLUSIVE = [("declared_header_other_case", "set_header"), ("basic", "provider_global"), ("basic", "provider_filtered"), ("provider_global", "provider_filtered"), ("api_key", "provider_global"), ("basic", "provider_requests"), ("provider_global", "provider_requests"), ("provider_filtered", "provider_requests"), ("api_key", "provider_requests")]
 
 
 def template_label(doc, r):
@@ -191,6 +192,11 @@ def make_pre_run(settings):
                 def set(self, case, data, context):
                     case.headers = case.headers or {}
                     case.headers["Authorization"] = f"Bearer {data}"
+
+        if "provider_requests" in settings:
+            from requests.auth import HTTPBasicAuth
+
+            schemathesis.auth.set_from_requests(HTTPBasicAuth("carol", "pw-456"))
 
     return pre_run
 
@@ -280,6 +286,10 @@ def judge(run, result):
                 bad("C14/auth-provider-data-missing", f"Authorization = {got}")
             if not applies and got == ["Bearer tok-123"]:
                 bad("C14/auth-provider-applied-outside-its-filters", f"Authorization = {got}")
+        if "provider_requests" in settings and not is_probe:
+            got = header_values(r, "Authorization")
+            if got != ["Basic Y2Fyb2w6cHctNDU2"]:
+                bad("C14/requests-auth-provider-data-missing", f"Authorization = {got} [{label}]")
     if ("provider_global" in settings or "provider_filtered" in settings) and len(PROVIDER_CALLS) > 1:
         viols.append(("C14/auth-provider-fetched-more-than-once-per-interval", f"{len(PROVIDER_CALLS)} fetches within one run (refresh interval 300 s)"))
     return viols, checked, probes
